@@ -458,7 +458,7 @@ func ruleC17Locks(c *Ctx) {
 		if n := namedOf(l.Type()); n != nil {
 			_ = n
 		}
-		return l.Pkg().Name() + "." + l.Name()
+		return l.Pkg().Name() + "." + vname(l)
 	}
 	// self edges
 	for from, tos := range adj {
@@ -531,7 +531,7 @@ func isRecordLock(l lockID) bool {
 		return false
 	}
 	// the mutex of a record type that also has a pending counter and listeners
-	return true && l.Name() == "lock"
+	return true && vname(l) == "lock"
 }
 
 // ---------------- C18 ----------------
